@@ -895,6 +895,17 @@ pub fn breakeven_trees() -> Vec<T> {
             out.push(T::list(vec![T::list(vec![filler.clone(), a.clone()]), T::list(vec![filler.clone(), b.clone()]), T::list(vec![filler.clone(), a.clone()])]));
         }
     }
+    // stack tails: (x1 … xn (xk … x1)) — the last element equals the decoder's parse stack minus its top
+    // n-k entries, so the back-reference is n-k "rest" steps into the stack itself and the path is all
+    // one-bits (0xff leading byte when n-k = 7, 15, 23: whole-byte steps must stop before the terminator)
+    for n in 2..=34usize {
+        for k in 1..=n {
+            let xs: Vec<T> = (0..n).map(|i| T::Atom(vec![0x90, i as u8, 0x33])).collect();
+            let mut v = xs.clone();
+            v.push(T::list(xs[..k].iter().rev().cloned().collect()));
+            out.push(T::list(v));
+        }
+    }
     out
 }
 
